@@ -707,8 +707,9 @@ class Dosym(_Symlink):
 
     def run(self, args):
         target = args.target
+        dest = pjoin(self.op.ED, target.lstrip(os.path.sep))
         if target.endswith(os.path.sep) or (
-            os.path.isdir(target) and not os.path.islink(target)
+            os.path.isdir(dest) and not os.path.islink(dest)
         ):
             # bug 379899
             raise IpcCommandError(f"missing filename target: {target!r}")
@@ -726,7 +727,9 @@ class Dosym(_Symlink):
 class Dohard(_Symlink):
     """Python wrapper for dohard."""
 
-    _link = os.link
+    def _link(self, source, target):
+        # both names are paths inside the image
+        os.link(pjoin(self.op.ED, source.lstrip(os.path.sep)), target)
 
 
 class Doman(_InstallWrapper):
